@@ -13,10 +13,11 @@ for d in sorted(glob.glob('/verif/seeded/*/')):
     how='MISSED'
     if det.get('detected',True):
         how='concrete input' if det.get('concrete_input',True) else 'broken tie/proof only (no-failing-input-found)'
-    if reg.get('result'):
+    if reg.get('result') and not reg['result'].startswith('patch-does-not-apply'):
         how={'detected':'concrete input','MISSED':'MISSED'}.get(reg['result'], reg['result'])
         if reg['result']=='detected' and reg.get('failing_input'): det=dict(det,failing_input=reg['failing_input'])
         if reg['result']=='MISSED' and det.get('also_caught_by'): how='caught by a sibling check: '+det['also_caught_by'][:80]
+    if (reg.get('result') or '').startswith('patch-does-not-apply'): how+=' (at the time; the patch no longer applies to the repaired tree)'
     rows.append((name,', '.join(files),(m.get('summary') or '')[:160].replace('|','/').replace('\n',' '),det.get('check','').split(' (')[0],how,(det.get('failing_input') or '')[:90].replace('|','/'),'yes' if det.get('history') else ''))
 out=['# Seeded property-breaking changes and the checks that catch them','',
  'Each directory holds `patch.diff` (the change, written by a fresh sub-agent that saw only the property text), the demonstration test and `meta.json` (what it needs to manifest, confirmation, detection result).','',
